@@ -3,6 +3,7 @@ from .common import jobs_for
 LEVEL = 'proof'
 LEVEL_TEXT = 'ghost values returned by the real cellValuesWithBoundaries* and the rows of the real boundaryConditionsTerm* are proved, for a symbolic boundary-face cell, symbolic face-wise a,b,c and symbolic fields, to be the Robin relation with the metric factors of angular directions (1/r, 1/(r sin theta)) resp. the periodic wrap exactly on the axes declared periodic; rows vs reported ghosts consistency; invariance under (a,b,c) -> lambda (a,b,c); every side of all 9 grids, periodic-flag patterns enumerated'
 LEVEL_NOTE = 'quick tier: periodic patterns none / each single axis declared on either face / all axes / mixed y-z patterns in 3-D; thorough: all 3^d patterns. The four operations (constructor, apply_BCs, solvePDE, solveExplicitPDE) end by calling these functions: see C09/C04 contracts. Corner and edge cells of the boundary matrix are never a column of a face-ghost row (proved by the row identity for arbitrary fields).'
+NOT_MACHINE_CHECKED = ["'the solved interior and the reported boundary values are mutually consistent' on periodic axes with unequal end cells (recorded finding: rows encode gradient continuity, reported ghosts wrap)", 'corner / edge bookkeeping cells (never a column of an interior or face-ghost row: proved) have no clause of their own']
 MODULES = ['contracts.bc']
 TRUSTED = ['A1', 'A2', 'A5', 'A6', 'UF']
 
